@@ -11,6 +11,13 @@ EX = [
     ("ex1_out", "fn f(a: u8) -> (u8,) {\n    match a {\n        1 => 2,\n        _ => 3,\n    }\n}\n"),
     ("ex2_in", "use b::{y, x};\nuse a;\n#[derive(A)]\n#[derive(B)]\nstruct S<>where{}\nextern fn g(){let c=|x,|{((x))};return;}\n"),
     ("ex2_out", "use a;\nuse b::{x, y};\n#[derive(A, B)]\nstruct S {}\nextern \"C\" fn g() {\n    let c = |x| (x);\n    return;\n}\n"),
+    # one-element tuples: the comma is significant in pattern, type and expression position, optional in a call
+    ("tp_pat_a", "fn g(){let (a,) = f();}"), ("tp_pat_b", "fn g(){let (a) = f();}"),
+    ("tp_ty_a", "fn g(){let x: (u8,) = (1,);}"), ("tp_ty_b", "fn g(){let x: (u8) = (1);}"),
+    ("tp_arm_a", "fn g(){match t { (a,) => a }}"), ("tp_arm_b", "fn g(){match t { (a) => a }}"),
+    ("tp_arg_a", "fn g(){f((a,));}"), ("tp_arg_b", "fn g(){f((a));}"), ("tp_arg_c", "fn g(){f(a);}"),
+    ("tp_nest_a", "fn g(){let x = ((a,),);}"), ("tp_nest_b", "fn g(){let x = ((a,));}"), ("tp_nest_c", "fn g(){let x = (a,);}"),
+    ("tp_call_a", "fn g(){f(a,);}"),
     ("ex3_bad", "fn f(a: u8) -> (u8,) {\n    match a {\n        1 => 2,\n        _ => 4,\n    }\n}\n"),
 ]
 for (name, src), toks in zip(EX, lex_all([s for _, s in EX])):
